@@ -226,9 +226,12 @@ Definition rm_apply (paths : list (list ascii)) (recursive : bool) (i : inventor
   let ps := remove_dups (concat (map (fun g => resolve_glob (i_hstate i) g recursive) paths)) in
   (foldl (fun a p => sapply (SRemove p) a) i ps, ROk).
 
-(** reset: add-resets first, then every path of the previous version; a refused
-    re-pointing aborts the call with Err before the inventory is re-staged
-    (repo.rs:877 `?`), so the staged inventory on disk stays as it was. *)
+(** reset: add-resets first, then every path of the previous version; a path that
+    cannot be re-pointed (its name is a directory now, a part of it is a file) is
+    skipped, the others are restored, the inventory is re-staged and the call
+    reports Err (since fix 9f7da71; before it the call returned at the first such
+    path WITHOUT re-staging the inventory although staged files of the paths
+    already processed were deleted). *)
 Definition reset_apply (paths : list (list ascii)) (recursive : bool) (order_prev : list lpath → list lpath)
   (i : inventory) : inventory * rclass :=
   let hps := remove_dups (concat (map (fun g => resolve_glob (i_hstate i) g recursive) paths)) in
@@ -241,5 +244,5 @@ Definition reset_apply (paths : list (list ascii)) (recursive : bool) (order_pre
   let r := exec_sops (map SResetPrev (order_prev pps)) i1 in
   match snd r with
   | O => (fst r, ROk)
-  | _ => (i, RErr)
+  | _ => (fst r, RErr)
   end.
